@@ -233,12 +233,14 @@ def _run_cl(case):
                        finding_key="cl|SampledKLEnergy|draw-count-not-deterministic|" + kcfg)
         if napprox == 1 and isinstance(e, (ValueError, NotImplementedError)) and str(e):
             return skip("napprox=1 rejected with an explanatory error")
-        why = "napprox=%d" % napprox if napprox else cfg
-        dom = "field" if spec["field"] else "multi"
+        why = cfg + (" napprox=%d" % napprox if napprox else "")
+        loc = _where(e)
+        dom = "any-domain" if loc.endswith(":var") else ("field" if spec["field"] else "multi")
+        # the root cause is identified by where the exception comes from (the preconditioner estimate or the sampler)
+        ctx = "napprox" if loc.startswith("probing.py") else kcfg + ("|pe" if pe else "")
         return bad("SampledKLEnergy(%s, %s position) raised %r in %s" % (
-            why, "Field" if spec["field"] else "MultiField", e, _where(e)),
-            finding_key="cl|SampledKLEnergy|raises|%s|%s@%s" % (
-                "napprox=1" if napprox == 1 else ("napprox|" + dom if napprox else kcfg + "|" + dom), type(e).__name__, _where(e)),
+            why, "Field" if spec["field"] else "MultiField", e, loc),
+            finding_key="cl|SampledKLEnergy|raises|%s|%s|%s@%s" % (ctx, dom, type(e).__name__, loc),
             detail=dict(model=spec["name"]))
     stats = dict(basis_runs=r["n"] + 3, excitation_dim=r["n"])
     det = dict(model=spec["name"], cfg=cfg, ndraw=r["n"], log=r["log"][:12])
